@@ -162,7 +162,12 @@ C('moduint.__abs__', **_un(pyabs))
 # int / hash -----------------------------------------------------------------------------------
 def _int_post(ctx, res, self):
     return And(isint(res), res == self.arg)
-C('moduint.__int__', pre=lambda ctx, self: inv(self), post=_int_post, result=lambda ctx, self: ctx.fresh_int('i'))
+def _int_result(ctx, self):
+    # a concrete stored value has exactly one result satisfying the postcondition: keep it concrete (enumerated shift counts stay exact)
+    if not is_sym(self.arg) and isinstance(self.arg, int) and not isinstance(self.arg, bool):
+        return self.arg
+    return ctx.fresh_int('i')
+C('moduint.__int__', pre=lambda ctx, self: inv(self), post=_int_post, result=_int_result)
 def _hash_post(ctx, res, self):
     return And(isint(res), res == pyhash(self.arg))
 C('moduint.__hash__', pre=lambda ctx, self: inv(self), post=_hash_post, result=lambda ctx, self: ctx.fresh_int('h'))
